@@ -160,6 +160,9 @@ func (c *compiler) assembleLine(in sourceLine) (Instruction, error) {
 		}
 	} else {
 		mode, err := getAddressMode(in.amode)
+		if err == nil && c.config.Mode == ICWS88 {
+			mode, err = getAddressMode88(in.amode)
+		}
 		if err != nil {
 			return Instruction{}, fmt.Errorf("invalid amode: '%s'", in.amode)
 		}
@@ -173,6 +176,9 @@ func (c *compiler) assembleLine(in sourceLine) (Instruction, error) {
 		}
 	} else {
 		mode, err := getAddressMode(in.bmode)
+		if err == nil && c.config.Mode == ICWS88 {
+			mode, err = getAddressMode88(in.bmode)
+		}
 		if err != nil {
 			return Instruction{}, fmt.Errorf("invalid bmode: '%s'", in.bmode)
 		}
